@@ -34,7 +34,6 @@ type verifS3 struct {
 	// SDK type permits.
 	omitTruncatedFlag bool
 	listCalls         int
-	failList          bool
 }
 
 func verifNewS3(bucket string) *verifS3 {
@@ -136,9 +135,6 @@ func (m *verifS3) listPage(input *s3.ListObjectsV2Input, token *string) *s3.List
 func (m *verifS3) ListObjectsV2Pages(input *s3.ListObjectsV2Input, fn func(*s3.ListObjectsV2Output, bool) bool) error {
 	m.checkBucket(input.Bucket)
 	m.listCalls++
-	if m.failList {
-		return awserr.New("InternalError", "injected", nil)
-	}
 	token := input.ContinuationToken
 	for {
 		page := m.listPage(input, token)
